@@ -105,5 +105,97 @@ units.append(emit_unit("comp.emit.sss", "h_emit_sss", ["janetc_emit_sss"] + HELP
                         M("moveback-dropped", "    janetc_free_regnear(c, s3, reg3, JANETC_REGTEMP_2);\n    if (wr)\n        janetc_moveback(c, s1, reg1);", "    janetc_free_regnear(c, s3, reg3, JANETC_REGTEMP_2);", "reaches the destination"),
                         M_FREEWRONG], props=("C02", "C15"), timeout=600))
 
+
+# ---------------------------------------------------------------- janetc_copy and the helpers one by one
+A_EQ = "janet_equals (used by janetc_sequal on constant / reference slots) replaced by identity of type and payload"
+units.append(emit_unit("comp.emit.copy", "h_copy", ["janetc_copy", "janetc_sequal", "janetc_movenear", "janetc_moveback", "janetc_allocnear", "janetc_emit"],
+                       "janetc_copy(dest, src): for every pair of slot kinds the destination afterwards holds the source's value (near/far register, upvalue, "
+                       "reference cell; through a temporary when neither is a near register), the source keeps its value, nothing else changes, copying a slot "
+                       "onto itself emits nothing, and a constant destination is refused with a compile error",
+                       [M("constant-destination-accepted", "    if (dest.flags & JANET_SLOT_CONSTANT) {\n        janetc_cerror(c, \"cannot write to constant\");\n        return;\n    }", "", "compile error"),
+                        M("near-source-test-wrong", "    if (src.envindex < 0 && src.index >= 0 && src.index <= 0xFF) {\n        janetc_moveback(c, dest, src.index);", "    if (src.envindex < 0 && src.index >= 0 && src.index <= 0xFFF) {\n        janetc_moveback(c, dest, src.index);", "holds the source"),
+                        M("temporary-not-released", "    /* Cleanup */\n    janetc_regalloc_freetemp(&c->scope->ra, nearreg, JANETC_REGTEMP_3);\n", "", "tag is released"),
+                        M_NODEREF, M_PUTSWAP],
+                       rc=["janetc_loadconst:em_loadconst_stub", "janet_equals:em_equals_stub"],
+                       assumes=[A_VM, A_ALLOC, A_SLOT, A_UP, A_LOADCONST, A_EQ, A_NOGROW]))
+M_MOVEDIR_H = dict(M_MOVEDIR, expect="holds the slot|no other register")
+M_NEARLIMIT_H = dict(M_NEARLIMIT, expect="holds the slot|fits an 8-bit")
+units.append(emit_unit("comp.emit.movenear", "h_movenear", ["janetc_movenear"],
+                       "janetc_movenear(reg, slot): afterwards the near register holds the slot's value - constant loaded, reference cell read with GET_INDEX 0, "
+                       "upvalue read with LOAD_UPVALUE, far local moved with MOVE_NEAR, nothing for the register itself - and nothing else changes",
+                       [M_MOVEDIR_H, M_UPFIELDS, M_NODEREF,
+                        M("self-move-test-dropped-wrongly", "    } else if (src.index != dest) {\n        janet_assert(src.index >= 0, \"bad slot\");\n        janetc_emit(c,\n                    ((uint32_t)(src.index) << 16) |",
+                          "    } else if (src.index > dest) {\n        janet_assert(src.index >= 0, \"bad slot\");\n        janetc_emit(c,\n                    ((uint32_t)(src.index) << 16) |", "holds the slot")],
+                       assumes=[A_VM, A_SLOT, A_UP, A_LOADCONST, A_NOGROW]))
+units.append(emit_unit("comp.emit.moveback", "h_moveback", ["janetc_moveback"],
+                       "janetc_moveback(slot, reg): afterwards the destination slot holds the near register's value - MOVE_FAR to a local, SET_UPVALUE, or "
+                       "PUT_INDEX 0 on the reference array loaded into a temporary that is released again - and nothing else changes",
+                       [M_PUTSWAP, M("upvalue-written-with-load", "                    ((uint32_t)(src) << 8) |\n                    JOP_SET_UPVALUE);", "                    ((uint32_t)(src) << 8) |\n                    JOP_LOAD_UPVALUE);", "holds the register|upvalue"),
+                        M("reference-temporary-kept", "        janetc_regalloc_freetemp(&c->scope->ra, refreg, JANETC_REGTEMP_5);\n", "", "tag is released"),
+                        M("far-move-wrong-direction", "                    ((uint32_t)(src) << 8) |\n                    JOP_MOVE_FAR);", "                    ((uint32_t)(src) << 8) |\n                    JOP_MOVE_NEAR);", "holds the register|clobbered")],
+                       assumes=[A_VM, A_ALLOC, A_SLOT, A_UP, A_WR, A_LOADCONST, A_NOGROW, "requires: the source register is not the reserved temporary 0xF5 of tag 5, which janetc_moveback takes itself for the reference array (callers hold tags 0..3)"]))
+units.append(emit_unit("comp.emit.regnear", "h_regnear", ["janetc_regnear", "janetc_free_regnear", "janetc_movenear"],
+                       "janetc_regnear(slot, tag) returns a register below 256 that holds the slot's value: the slot's own register for a near local, otherwise a "
+                       "temporary held under the tag; no live register changes; janetc_free_regnear then gives exactly that temporary back (and never frees the slot's own register)",
+                       [M_NEARLIMIT_H, M_FREEWRONG, M("value-not-loaded", "    int32_t reg = janetc_regalloc_temp(&c->scope->ra, tag);\n    janetc_movenear(c, reg, s);\n    return reg;", "    int32_t reg = janetc_regalloc_temp(&c->scope->ra, tag);\n    return reg;", "holds the slot")],
+                       assumes=[A_VM, A_ALLOC, A_SLOT, A_UP, A_LOADCONST, A_NOGROW]))
+units.append(emit_unit("comp.emit.regfar", "h_regfar", ["janetc_regfar", "janetc_free_regnear", "janetc_movenear", "janetc_allocfar"],
+                       "janetc_regfar(slot, tag) returns a register below 65536 that holds the slot's value: any local in place, otherwise a register taken from the "
+                       "allocator (the value is spilled with MOVE_FAR when only a reserved temporary was available); the tag is free again on return; no live register changes",
+                       [M("spill-threshold-wrong", "    if (nearreg >= 0xF0) {\n        reg = janetc_allocfar(c);", "    if (nearreg > 0xF0) {\n        reg = janetc_allocfar(c);", "re-taken|taken from the allocator|only a register"),
+                        M("spill-move-wrong-direction", "janetc_emit(c, JOP_MOVE_FAR | (nearreg << 8) | (reg << 16));", "janetc_emit(c, JOP_MOVE_NEAR | (nearreg << 8) | (reg << 16));", "holds the slot"),
+                        M("upvalue-taken-for-local", "    if (s.envindex < 0 && s.index >= 0) {\n        return s.index;\n    }\n    int32_t reg;", "    if (s.index >= 0) {\n        return s.index;\n    }\n    int32_t reg;", "holds the slot")],
+                       assumes=[A_VM, A_ALLOC, A_SLOT, A_UP, A_LOADCONST, A_NOGROW]))
+
+# ---------------------------------------------------------------- constants
+# conversion-check also flags signed -> unsigned conversions, which C defines (modulo 2^32) and emit.c uses on purpose: not counted
+ONLY_NO_S2U = "^(?!.*signed to unsigned type conversion)"
+A_CONSTSTUB = ("janetc_const replaced by its contract (proved for small tables in comp.emit.const): returns an index below 0xFFFF at which the function's "
+               "constant table holds the value, or reports 'too many constants'")
+RC_LC = ["janetc_const:em_const_stub"]
+LC_CLAUSE = ("janetc_loadconst(k, reg): exactly one load instruction after which the near register holds exactly the constant k - nil, true, false, "
+             "a number that is a 16-bit integer (LOAD_INTEGER) or any other value through the constant table (LOAD_CONSTANT with the index janetc_const returned)")
+M_LC = [M("true-false-swapped", "(janet_unwrap_boolean(k) ? JOP_LOAD_TRUE : JOP_LOAD_FALSE)", "(janet_unwrap_boolean(k) ? JOP_LOAD_FALSE : JOP_LOAD_TRUE)", "exactly the constant"),
+        M("integer-range-too-wide", "if (dval < INT16_MIN || dval > INT16_MAX)", "if (dval < INT16_MIN || dval > UINT16_MAX)", "exactly the constant"),
+        M("fraction-truncated", "            if (dval != i)\n                goto do_constant;\n", "", "exactly the constant"),
+        M("constant-index-in-wrong-field", "                            (cindex << 16) |\n                            (reg << 8) |\n                            JOP_LOAD_CONSTANT);", "                            (cindex << 8) |\n                            (reg << 16) |\n                            JOP_LOAD_CONSTANT);", "exactly the constant|other register")]
+units.append(emit_unit("comp.emit.loadconst", "h_loadconst", ["janetc_loadconst"], LC_CLAUSE + "; every constant except -0.0 and NaN (comp.emit.loadconst.negzero, .nan)",
+                       M_LC, rc=RC_LC, defines=["-DEM_REAL_LOADCONST"], cls="bounded", bound="all constants of all 16 types and all payloads except the number -0.0 and NaN numbers; all near registers",
+                       assumes=[A_VM, A_CONSTSTUB, A_NOGROW], extra={"checks": CHECKS + ["conversion-check", "float-overflow-check"], "only": ONLY_NO_S2U}))
+units.append(emit_unit("comp.emit.loadconst.negzero", "h_loadconst", ["janetc_loadconst"], LC_CLAUSE + "; including the number -0.0",
+                       [M_LC[0]], rc=RC_LC, defines=["-DEM_REAL_LOADCONST", "-DEM_NEGZERO"], cls="bounded", bound="as comp.emit.loadconst plus -0.0",
+                       assumes=[A_VM, A_CONSTSTUB, A_NOGROW]))
+units.append(emit_unit("comp.emit.loadconst.nan", "h_loadconst", ["janetc_loadconst"], LC_CLAUSE + "; including NaN, without undefined float-to-integer conversion",
+                       [M_LC[0]], rc=RC_LC, defines=["-DEM_REAL_LOADCONST", "-DEM_NAN"], cls="bounded", bound="as comp.emit.loadconst plus NaN numbers",
+                       assumes=[A_VM, A_CONSTSTUB, A_NOGROW], extra={"checks": CHECKS + ["conversion-check", "float-overflow-check"], "only": ONLY_NO_S2U}))
+units.append(emit_unit("comp.emit.const", "h_const", ["janetc_const"],
+                       "janetc_const(x): the constant goes to the table of the nearest enclosing FUNCTION scope; an equal constant (janet_equals) already in the "
+                       "table is shared - its index is returned and no entry is added - otherwise x is appended and the new index returned; existing entries keep "
+                       "their indices; the index fits the 16-bit field of LOAD_CONSTANT",
+                       [M("equal-test-inverted", "        if (janet_equals(x, scope->consts[i]))\n            return i;", "        if (!janet_equals(x, scope->consts[i]))\n            return i;", "holds the constant|share"),
+                        M("block-scope-table", "        if (scope->flags & JANET_SCOPE_FUNCTION)\n            break;\n        scope = scope->parent;\n    }\n    /* Check if already added */",
+                          "        break;\n    }\n    /* Check if already added */", "pointer|enclosing function|appended|holds the constant|preallocated vectors"),
+                        M("returns-next-index", "    janet_v_push(scope->consts, x);\n    return len;", "    janet_v_push(scope->consts, x);\n    return len + 1;", "index is in the table|appended")],
+                       rc=["janet_equals:emc_equals_stub"], defines=["-DEM_REAL_CONST"], cls="bounded",
+                       bound="constant table of 0..4 entries (capacity 8, no growth), 0..2 block scopes between the current scope and the function scope; janet_equals an arbitrary equivalence over the entries and x",
+                       assumes=["janet_equals replaced by an arbitrary equivalence relation over the table entries and x (class numbers)", A_NOGROW]))
+
+# ---------------------------------------------------------------- obligations the real code does not meet (reported; see known findings)
+units.append(emit_unit("comp.emit.s.wr-nonlocal", "h_emit_s", ["janetc_emit_s"] + HELPERS,
+                       "janetc_emit_s with a written destination of ANY kind (upvalue, reference): " + ABCF, [M_NODEREF], defines=["-DEM_S_ANYDEST"]))
+REL = ("(d) every register taken from the register allocator during the call (temporaries and janetc_allocfar spills) is given back before the emitter returns, "
+       "so compiling an instruction does not consume registers")
+units.append(emit_unit("comp.emit.release.s", "h_emit_s", ["janetc_emit_s"] + HELPERS, "janetc_emit_s: " + REL,
+                       [M("free-dropped", "    janetc_free_regnear(c, s, reg, JANETC_REGTEMP_0);\n    return label;\n}\n\nint32_t janetc_emit_sl(", "    return label;\n}\n\nint32_t janetc_emit_sl(", "given back")], defines=["-DEM_CHECK_RELEASE"]))
+units.append(emit_unit("comp.emit.release.ss", "h_emit_ss", ["janetc_emit_ss"] + HELPERS, "janetc_emit_ss: " + REL,
+                       [M("free-dropped", "    janetc_free_regnear(c, s2, reg2, JANETC_REGTEMP_1);\n    if (wr)\n        janetc_moveback(c, s1, reg1);\n    janetc_free_regnear(c, s1, reg1, JANETC_REGTEMP_0);\n    return label;\n}\n\nint32_t janetc_emit_ssi(",
+                          "    if (wr)\n        janetc_moveback(c, s1, reg1);\n    janetc_free_regnear(c, s1, reg1, JANETC_REGTEMP_0);\n    return label;\n}\n\nint32_t janetc_emit_ssi(", "given back")], defines=["-DEM_CHECK_RELEASE"]))
+units.append(emit_unit("comp.emit.release.sss", "h_emit_sss", ["janetc_emit_sss"] + HELPERS, "janetc_emit_sss (and, by the same helpers, _si/_su/_ssi/_ssu): " + REL,
+                       [M("free-dropped", "    janetc_free_regnear(c, s3, reg3, JANETC_REGTEMP_2);\n", "", "given back|tag is released")], defines=["-DEM_CHECK_RELEASE"], timeout=600))
+units.append(emit_unit("comp.emit.upvalue-range", "h_emit_ss", ["janetc_emit_ss"] + HELPERS,
+                       "upvalue operands whose index or environment index exceeds the 8-bit fields of LOAD_UPVALUE / SET_UPVALUE (a captured local beyond register 255, "
+                       "more than 256 captured environments) are still read and written correctly, or a compile error is reported: " + ABCF,
+                       [M_UPFIELDS], defines=["-DEM_MAXUP=0xFFFF"], assumes=[A_VM, A_ALLOC, A_SLOT, A_WR, A_LOADCONST, A_NOGROW]))
+
 json.dump({"units": units}, open(os.path.join(VERIF, "units", "C02_emit.json"), "w"), indent=1)
 print("wrote", len(units), "units")
